@@ -42,7 +42,7 @@ type c18SilMatcher struct {
 }
 
 type c18SilOp struct {
-	Kind       string          `json:"kind"`                  // create | edit | replace | expire | gc | advance
+	Kind       string          `json:"kind"`                  // create | edit | replace | expire | gc | advance | merge (CommentLen foreign silences arrive by gossip: the limits do not apply to them)
 	Target     int             `json:"target,omitempty"`      // index into the ids returned so far (mod their number)
 	Matchers   []c18SilMatcher `json:"matchers,omitempty"`    // create, replace
 	StartSec   int             `json:"start_sec,omitempty"`   // create/replace: start relative to the op instant (0 = now)
@@ -103,6 +103,9 @@ func c18GenSil(t *rapid.T) c18SilScenario {
 			op.Kind = "gc"
 		default:
 			op.Kind = "advance"
+			if rapid.IntRange(0, 2).Draw(t, "mergeInstead") == 0 {
+				op.Kind = "merge"
+			}
 		}
 		switch op.Kind {
 		case "create", "replace":
@@ -117,6 +120,9 @@ func c18GenSil(t *rapid.T) c18SilScenario {
 			op.CommentLen = c18GenCommentLen(t)
 		case "advance":
 			op.DtSec = rapid.SampledFrom([]int{1, 15, 45, 100, 700, 4000}).Draw(t, "dt")
+		case "merge":
+			op.CommentLen = rapid.IntRange(1, 3).Draw(t, "nForeign")
+			op.EndSec = rapid.SampledFrom([]int{20, 300, 3600}).Draw(t, "end")
 		}
 		if op.Kind == "edit" || op.Kind == "replace" || op.Kind == "expire" {
 			op.Target = rapid.IntRange(0, 7).Draw(t, "target")
@@ -307,6 +313,7 @@ func c18ExecSil(sc c18SilScenario) (res pbt.Result) {
 		var ids []string
 		classes := map[string]bool{}
 		var rejCount, rejSize bool
+		merged := false // silences have arrived by gossip: the stored count may exceed the limit without any API call being at fault
 
 		for i, op := range sc.Ops {
 			time.Sleep(time.Millisecond)
@@ -319,6 +326,25 @@ func c18ExecSil(sc c18SilScenario) (res pbt.Result) {
 			switch op.Kind {
 			case "advance":
 				time.Sleep(time.Duration(op.DtSec) * time.Second)
+			case "merge":
+				// silences authored on a peer: gossip brings them in whatever the local limits say
+				for j := 0; j < op.CommentLen; j++ {
+					m := &silencepb.MeshSilence{Silence: &silencepb.Silence{Id: fmt.Sprintf("00000000-0000-4000-9000-%06d%06d", i, j),
+						MatcherSets: []*silencepb.MatcherSet{{Matchers: []*silencepb.Matcher{{Type: silencepb.Matcher_EQUAL, Name: "peer", Pattern: fmt.Sprint(i, j)}}}},
+						StartsAt:    timestamppb.New(now), EndsAt: timestamppb.New(now.Add(time.Duration(op.EndSec) * time.Second)), UpdatedAt: timestamppb.New(now), CreatedBy: "peer", Comment: "c"},
+						ExpiresAt: timestamppb.New(now.Add(time.Duration(op.EndSec)*time.Second + retention))}
+					var buf bytes.Buffer
+					if _, err := protodelim.MarshalTo(&buf, m); err != nil {
+						res.Fail("harness", "encode: %v", err)
+						return
+					}
+					if err := sils.Merge(buf.Bytes()); err != nil {
+						res.Fail("harness", "%s: Merge: %v", where, err)
+						return
+					}
+				}
+				merged = true
+				classes["peer-silences-merged"] = true
 			case "gc":
 				n, err := sils.GC()
 				if err != nil {
@@ -403,6 +429,10 @@ func c18ExecSil(sc c18SilScenario) (res pbt.Result) {
 						res.Add(pbt.V("accepted-not-stored", "%s: POST answered 200 id=%s but MarshalBinary has no such silence", where, ok.SilenceID))
 						break
 					}
+					if sc.MaxSilences > 0 && len(after) > len(before) && len(after) > sc.MaxSilences {
+						res.Add(pbt.V("count-exceeded", "%s: the POST was accepted and raised the number of stored silences from %d to %d > max-silences %d", where, len(before), len(after), sc.MaxSilences).
+							With("stored", len(after)).With("limit", sc.MaxSilences).With("by_api_call", true))
+					}
 					if ok.SilenceID == postedID {
 						classes["inplace-edit-ok"] = true
 					} else {
@@ -481,7 +511,7 @@ func c18ExecSil(sc c18SilScenario) (res pbt.Result) {
 			if len(q) != len(cur) {
 				res.Add(pbt.V("count-disagreement", "%s: Query returns %d silences, MarshalBinary holds %d", where, len(q), len(cur)))
 			}
-			if sc.MaxSilences > 0 && len(cur) > sc.MaxSilences {
+			if sc.MaxSilences > 0 && len(cur) > sc.MaxSilences && !merged {
 				expired := 0
 				for _, r := range cur {
 					if r.msg.Silence.EndsAt.AsTime().Before(time.Now()) {
@@ -511,7 +541,7 @@ func TestC18SilenceLimits(t *testing.T) {
 	pbt.Run(t, pbt.Spec[c18SilScenario]{
 		Property: "C18", Name: "C18SilenceLimits",
 		Rule: "sequences of create / edit (same matchers) / replace (other matchers) / expire / GC / advance through POST /api/v2/silences and DELETE /api/v2/silence/{id} " +
-			"with max-silences ∈ 1..4 (or off) and max-silence-size-bytes ∈ 125..260 (or off), comment lengths 0..140; non-trivial iff ≥1 rejection by the count limit AND ≥1 by the size limit",
+			"and merges of 1-3 silences authored on a peer (gossip is not subject to the limits; afterwards an accepted POST must still not raise the count above the limit) with max-silences ∈ 1..4 (or off) and max-silence-size-bytes ∈ 125..260 (or off), comment lengths 0..140; non-trivial iff ≥1 rejection by the count limit AND ≥1 by the size limit",
 		Gen:  c18GenSil,
 		Exec: c18ExecSil,
 	})
